@@ -5,7 +5,7 @@ import "gosym/sym"
 func init() {
 	Register(&Spec{
 		ID:    "C16",
-		Level: "model_checking",
+		Level: "model_checking", CrossSolver: true,
 		Explanation: "bounded symbolic execution of icc.ProfileReader.ReadProfile on 128 fully symbolic header bytes (all 2^1024 headers with 'acsp' in one query per field) followed by a minimal concrete tag table; every Header field is asserted equal to the big-endian value at its ICC.1:2010 Table 17 offset as a bit-vector identity",
 		Bounds: func(tier string) map[string]interface{} {
 			return map[string]interface{}{"header_bytes_symbolic": 128, "tag_table": "concrete, one 4-byte tag", "loops": "none over symbolic data", "outside": "tag table contents (C17), fmt %d rendering, time.Date normalisation"}
